@@ -181,6 +181,9 @@ def run(idx: ProgramIndex, rep: Report, tier: str, selftest: bool = True):
             rep.ok("C13.D", {"class": c.name, "attribute": a, "from": sorted(rec.attr_sources[a])})
     # the findings above were counted as instances by rep.bad; discharged ones by rep.ok (one per attribute)
 
+    from ..recordmut import report_record_mutations
+
+    report_record_mutations(idx, rep, PROP, "C13.R")
     if selftest:
         from ..selftest import run_fixtures
 
